@@ -59,7 +59,7 @@ def check(run):
     n = 400 if run.tier == "thorough" else 60
     codes = [C.gen_code(rng) for _ in range(n)]
     codes += [b"", b"\x00", b"\x5b", b"\x56", b"\x5b\x5b\x57", bytes.fromhex("600456005b00"), bytes.fromhex("60035b5600")]
-    codes += [c for _, c in C.systematic_codes()]
+    codes += [c for _, c in C.systematic_codes()] + [c for _, c in C.HARD_CODES]
     reqs = []
     for c in codes:
         h = c.hex() or "-"
